@@ -20,4 +20,23 @@ PROPS = {
         'level_note': 'Trusted: Coq kernel, extraction + driver.ml, harness, translator; encoding/binary and sync.Map are modelled. The proof is about coq/Model/Mux.v; the correspondence is a differential test over generated cases.',
         'assumptions': ['memswarm delivers muxed frames unchanged (it is the transport under test in C01)'],
     },
+    'C18': {
+        'coq': ['Props/C18.v'],
+        'rule': 'operation histories (5-260 ops: put with fresh/zero/negative CreatedAt and zero/short/past expiry, AddPeer-style update, delete, expire, get) on real caches with locus of 0-4 or 32 bytes, per-bucket minimum -1..3, capacity at/around the constructor bound (rejected configurations included), key pools biased to share 0..all leading bits with the locus, and a "fill every bucket to its minimum" prefix; after EVERY op the harness records the result, Count() and the full contents. A history is non-trivial when it reaches capacity or uses delete/expire; distinct = distinct case text',
+        'theorems': 'C18_no_panic, C18_count_exact, C18_bounded, C18_refines_map, C18_no_silent_loss, C18_victim_farthest, C18_expire_exact over every operation history, locus, capacity and minimum the constructor accepts, and every eviction oracle',
+        'trusted': ['Go map iteration order modelled as an oracle (victim among newest-ties is reported by the implementation and checked by the model)',
+                    'time.Time modelled as an integer offset from the zero time'],
+        'level_text': 'Theorems prove, for every reachable cache of the model (induction over operation lists): count = entries held <= capacity, pointwise refinement to a map, no silent loss, victim = newest entry of the farthest bucket above its minimum, exact expiry, no panic. The model is tied to the code by replaying every generated history on the real Cache and on the extracted model and comparing result, Count and full contents after every operation; the property predicate is also evaluated on the implementation observations.',
+        'level_note': 'Trusted: Coq kernel, extraction + driver.ml, harness. Map iteration order is an oracle; times are integers. Proof is about coq/Model/Cache.v.',
+        'assumptions': ['harness times are small offsets from the zero time'],
+    },
+    'C19': {
+        'coq': ['Props/C19.v'],
+        'rule': 'caches of 1-12 entries (locus 1, 2 or 32 bytes; keys equal to or longer than the locus, biased to share 0..all leading bits with it) queried with keys that are empty, shorter than the locus, equal to the locus, longer than the entry keys, or share a chosen number of leading bits; queries: ForEach (full visit sequence), Closest, ForEachCloser, ForEachMatching. Non-trivial: at least two non-empty buckets deeper than the common prefix of locus and query, or a query shorter than the locus',
+        'theorems': 'C19_cmp_spec, C19_preorder, C19_sym, C19_zero_iff (all byte strings of all lengths), C19_foreach (permutation of contents and non-decreasing distance for every reachable cache and every query key), C19_code_loop, C19_closest, C19_closer',
+        'trusted': ['slices.SortFunc modelled as insertion sort (any sort yields the same sequence up to the order of equidistant entries, which both sides canonicalise)'],
+        'level_text': 'Theorems prove the comparison laws for all byte strings and, for every reachable cache and every query key, that the enumeration is a permutation of the contents in non-decreasing XOR distance (hence Closest is a minimum and ForEachCloser returns all and only the nearer entries). Tied to the code by comparing visit sequences and query results of the real Cache with the extracted model and by evaluating sortedness/completeness directly on the implementation output.',
+        'level_note': 'Hypotheses of C19_foreach: well-formed bytes and entry keys at least as long as the locus (shorter keys are bucketed by padding but compared by truncation; excluded and reported in DESIGN.md). Trusted: Coq kernel, extraction + driver.ml, harness.',
+        'assumptions': ['entry keys are at least as long as the locus'],
+    },
 }
